@@ -299,7 +299,11 @@ def run_sequence(case, names=None, value_pool=(1, 2, 0)):
         elif op[0] == 'new':
             op = op[:2] + [[[wh, sp, v + 10 if v < 0 and types[wh] == 'UNIQUE_ID' else v] for wh, sp, v in op[2]]]
         apply(w, op, case)
-    check(w, case, value_pool)
+        # every spelling is read, serialized and queried after EVERY step: what a read or a query leaves behind (a memo,
+        # a lookup table) must not survive the next write
+        check(w, case, value_pool)
+    if not case['ops']:
+        check(w, case, value_pool)
 
 
 def nontrivial(ops):
